@@ -71,7 +71,9 @@ fn main() {
     match id.as_str() {
         "C01" => props::c01::run(run),
         "C02" => props::c02::run(run),
+        "C03" => props::c03::run(run),
         "C04" | "C05" => props::c04_c05::run(&id, run),
+        "C06" => props::c06::run(run),
         "C07" => props::c07::run(run),
         "C08" => props::c08::run(run),
         "C09" => props::c09::run(run),
@@ -87,6 +89,7 @@ fn main() {
             eprintln!("C15 needs the virtual-clock workspace: use ./check C15 (builds /verif/harness_vclock)");
             std::process::exit(2);
         }
+        "C16" => props::c16::run(run),
         "C17" => props::c17::run(run),
         "C18" => props::c18::run(run),
         "C19" => props::c19::run(run),
